@@ -152,7 +152,7 @@ impl Run {
         w.set_clock(0, 0);
         if !r.ok {
             out.emit(&json!({"act":"reset","sys":"cw4","run":run_no,"cfg":cfgv,"ok":false,"panic":r.panic,"err":r.err,"now":w.now(),"out":[],"anom":[],
-                "obs":{"members":{"a1":-1,"a2":-1,"a3":-1},"total":0,"listed":[],"admin":"none","hooks":[],"stake":{"a1":0,"a2":0,"a3":0},
+                "obs":{"members":{"a1":-1,"a2":-1,"a3":-1},"total":0,"nlisted":0,"listed":[],"admin":"none","hooks":[],"stake":{"a1":0,"a2":0,"a3":0},
                        "claims":{"a1":[],"a2":[],"a3":[]},"held":0,"ubal":{"a1":0,"a2":0,"a3":0}}}));
             return None;
         }
@@ -189,7 +189,8 @@ impl Run {
         let mut listed = vec![];
         let mut cursor: Option<String> = None;
         loop {
-            let r: MemberListResponse = w.smart(&self.c, &cw4_group::msg::QueryMsg::ListMembers { start_after: cursor.clone(), limit: Some(30) }).unwrap();
+            // small pages on purpose: "the listed members" are what a client gets walking the listing
+            let r: MemberListResponse = w.smart(&self.c, &cw4_group::msg::QueryMsg::ListMembers { start_after: cursor.clone(), limit: Some(2) }).unwrap();
             if r.members.is_empty() {
                 break;
             }
@@ -197,11 +198,14 @@ impl Run {
             for m in r.members {
                 listed.push(json!({"a": w.name_of(&m.addr), "w": self.wdown(Some(m.weight), anom)}));
             }
+            if listed.len() > 50 {
+                break;
+            }
         }
         let admin: AdminResponse = w.smart(&self.c, &cw4_group::msg::QueryMsg::Admin {}).unwrap();
         let hooks: HooksResponse = w.smart(&self.c, &cw4_group::msg::QueryMsg::Hooks {}).unwrap();
         let mut o = json!({
-            "members": Value::Object(members), "total": self.wdown(Some(total.weight), anom), "listed": listed,
+            "members": Value::Object(members), "total": self.wdown(Some(total.weight), anom), "nlisted": listed.len(), "listed": listed,
             "admin": admin.admin.map(|a| w.name_of(&a)).unwrap_or_else(|| "none".into()),
             "hooks": hooks.hooks.iter().map(|h| w.name_of(h)).collect::<Vec<_>>(),
             "stake": {"a1":0,"a2":0,"a3":0}, "claims": {"a1":[],"a2":[],"a3":[]}, "held": 0, "ubal": {"a1":0,"a2":0,"a3":0},
